@@ -17,9 +17,12 @@ package mimc
 //@ option strict-slice-len
 //@ loop 0
 //@ + invariant[aligned] 0 <= start && start % BlockSize == 0
+//@ + invariant[pending] len(d.data) * BlockSize == old(len(d.data)) * BlockSize + start && forall(j, 0, old(len(d.data)), d.data[j] == old(d.data[j]))
 //@ ensures[accept-length] isnil(result1) ==> len(p) % BlockSize == 0 || len(p) < BlockSize
 //@ ensures[accept-count] isnil(result1) ==> result0 == len(p) || (len(p) < BlockSize && result0 == BlockSize)
 //@ ensures[reject-count] !isnil(result1) ==> result0 == 0
+//@ ensures[keeps-earlier] len(d.data) >= old(len(d.data)) && forall(j, 0, old(len(d.data)), d.data[j] == old(d.data[j]))
+//@ ensures[absorbed-count] isnil(result1) ==> len(d.data) * BlockSize == old(len(d.data)) * BlockSize + result0
 //@ modifies d
 //@ end
 
